@@ -17,6 +17,7 @@ CONSTANTS
   MAXREC = 2
   NOOPBUDGET = 99
   VSTAKERS = {"s1", "v"}
+  PATHS = {"keeper", "pc"}
   NONEMPTY = FALSE
   BLOCKW = 1
 VIEW View
